@@ -324,7 +324,9 @@ def fmtShape (s : Doc.ShapeOut Float) : String :=
     fmtOptNat s.fill, fmtOptNat s.stroke, hexOfFloat s.sw, bstr s.nonScaling, fmtMat s.m, fmtMat s.vt,
     toString s.nums.length, " ".intercalate (s.nums.map hexOfFloat),
     " ".intercalate (s.opts.map fun o => match o with | some x => hexOfFloat x | none => "-"),
-    "d" ++ hexOfString s.d]
+    "D:" ++ hexOfString s.d,
+    -- a path element's data as the character-level parser (Model/PathParse) reads it
+    (if s.tag = "path" then "P: " ++ fmtPSegs (parsePath numOvf [] s.d.toList).1 else "P:")]
 
 def docRender (ppi color tf w h tree : String) : String :=
   match xmlOf ((tree.splitOn " ").filter (· ≠ "")) with
